@@ -1,10 +1,11 @@
 import RV.Model.Boundary
 import RV.Model.Tree
+import RV.Model.TreeArr
 import RV.Driver.Util
 open RV RV.Driver
 
 namespace C15
-open RV.Tree RV.Boundary
+open RV.Tree RV.Boundary RV.TreeArr
 
 /-- root-box layout (`reb_simulation_configure_box`) -/
 structure Box where
@@ -26,7 +27,11 @@ def cellIdx (x bs rs : Float) : Int := (Float.floor ((x + bs / 2.0) / rs)).toInt
 /-- `reb_get_rootbox_for_particle` -/
 def clampIdx (i : Int) (n : Nat) : Int := if i < 0 then 0 else if i ≥ n then (n : Int) - 1 else i
 
+/-- `(int)floor(x)` on doubles -/
+def floorF (x : Float) : Int := (Float.floor x).toInt64.toInt
+
 def rootIndex (b : Box) (p : Pt Float) : Int :=
+  if b.clamp then (TreeArr.rootIdx floorF b.rs b.nx b.ny b.nz p : Nat) else
   let i := if b.clamp then clampIdx (cellIdx p.x b.bx b.rs) b.nx else (cellIdx p.x b.bx b.rs + b.nx).tmod b.nx
   let j := if b.clamp then clampIdx (cellIdx p.y b.bY b.rs) b.ny else (cellIdx p.y b.bY b.rs + b.ny).tmod b.ny
   let k := if b.clamp then clampIdx (cellIdx p.z b.bz b.rs) b.nz else (cellIdx p.z b.bz b.rs + b.nz).tmod b.nz
@@ -34,6 +39,7 @@ def rootIndex (b : Box) (p : Pt Float) : Int :=
 
 /-- geometry of a new root node (tree.c:86-92) -/
 def rootCell (b : Box) (p : Pt Float) : Cell Float :=
+  if b.clamp then TreeArr.rootCellOf b.rs b.nx b.ny b.nz (TreeArr.rootIdx floorF b.rs b.nx b.ny b.nz p) else
   let i := if b.clamp then clampIdx (cellIdx p.x b.bx b.rs) b.nx else (cellIdx p.x b.bx b.rs).tmod b.nx
   let j := if b.clamp then clampIdx (cellIdx p.y b.bY b.rs) b.ny else (cellIdx p.y b.bY b.rs).tmod b.ny
   let k := if b.clamp then clampIdx (cellIdx p.z b.bz b.rs) b.nz else (cellIdx p.z b.bz b.rs).tmod b.nz
@@ -79,6 +85,42 @@ def dumpForest (roots : Array (T Float)) : String := Id.run do
     acc := dump i 0 0 roots[i] acc
   return s!"ok {acc.size} " ++ " ".intercalate acc.toList
 
+/-- root cell from the root-box index (same float expression as `rootCell`) -/
+def rootCellOfIndex (b : Box) (r : Nat) : Cell Float :=
+  if b.clamp then TreeArr.rootCellOf b.rs b.nx b.ny b.nz r else
+  let i := r % b.nx
+  let j := (r / b.nx) % b.ny
+  let k := r / (b.nx * b.ny)
+  { w := b.rs
+    x := (-b.bx) / 2.0 + b.rs * (0.5 + Float.ofNat i)
+    y := (-b.bY) / 2.0 + b.rs * (0.5 + Float.ofNat j)
+    z := (-b.bz) / 2.0 + b.rs * (0.5 + Float.ofNat k) }
+
+/-- `x1 y1 z1 x2 y2 z2 m` per particle: where the tree was built, where the particle is now -/
+def pts7 : List String → List (Pt Float × Pt Float)
+  | a :: b :: c :: d :: e :: f :: g :: r => (⟨fl a, fl b, fl c, fl g⟩, ⟨fl d, fl e, fl f, fl g⟩) :: pts7 r
+  | _ => []
+
+/-- build the forest at the old positions, then `reb_simulation_update_tree` with the new ones;
+    prints the new order of the particle array (original indices) and the dump -/
+def runUpdate (b : Box) (fuel : Nat) (pp : Array (Pt Float × Pt Float)) : String :=
+  match buildForest b (pp.map (·.1)) fuel with
+  | .error e => e
+  | .ok roots =>
+    let arr : List (Nat × Pt Float) := (List.range pp.size).zip (pp.toList.map (·.2))
+    let pos := fun (q : Nat × Pt Float) => q.2
+    let flagged := fun (q : Nat × Pt Float) => q.2.y.isNaN
+    let inBox := fun (q : Nat × Pt Float) => !(outside b.bx b.bY b.bz ⟨q.2.x, q.2.y, q.2.z, 0.0⟩)
+    let ri := fun (p : Pt Float) => (rootIndex b p).toNat
+    match updateA pos flagged inBox ri (rootCellOfIndex b) fuel roots.toList arr with
+    | none => "err corrupt-index"
+    | some (.error .coincident) => "err coincident"
+    | some (.error .fuel) => "err fuel"
+    | some (.ok (forest, arr')) =>
+      let psf := psOf pos arr'
+      let forest := forest.map (updGrav psf)
+      "ord " ++ " ".intercalate (arr'.map fun q => toString q.1) ++ " " ++ dumpForest forest.toArray
+
 def pts4 : List String → List (Pt Float)
   | a :: b :: c :: d :: r => ⟨fl a, fl b, fl c, fl d⟩ :: pts4 r
   | _ => []
@@ -110,6 +152,13 @@ def step (toks : List String) : String :=
         let roots := if g = 1 then roots.map (updGrav psf) else roots
         dumpForest roots
     | _, _, _, _, _, _ => "bad-op"
+  | "update" :: mode :: rs :: nx :: ny :: nz :: fuel :: n :: rest =>
+    match nx.toNat?, ny.toNat?, nz.toNat?, fuel.toNat?, n.toNat? with
+    | some nx, some ny, some nz, some fuel, some n =>
+      let b : Box := ⟨fl rs, nx, ny, nz, mode == "clamp"⟩
+      let pp := (pts7 rest).toArray
+      if pp.size ≠ n then "bad-count" else runUpdate b fuel pp
+    | _, _, _, _, _ => "bad-op"
   | "walk" :: th :: gx :: gy :: gz :: pt :: rs :: nx :: ny :: nz :: fuel :: n :: rest =>
     match pt.toNat?, nx.toNat?, ny.toNat?, nz.toNat?, fuel.toNat?, n.toNat? with
     | some pt, some nx, some ny, some nz, some fuel, some n =>
